@@ -789,7 +789,7 @@ theorem extractProbeResp_error (c : ChanCfg) (te : Bool) (h : IcmpHdr) (b : Body
     simp only [if_true] at hty
     simp only [hty, if_true, hc0, hx, R.bind_ok]
     have : (0 : UInt8).toNat = 0 := rfl
-    simp only [this, if_true, R.bind_ok]
+    simp only [this, if_true]
     cases protoResp c q' <;> simp [mkResp]
   | false =>
     simp only [Bool.false_eq_true, if_false] at hty
